@@ -55,7 +55,7 @@ ASSUMPTIONS = ["integer-valued template variables; control values (add/subtract/
 TICK = 0.125
 NAME = "blk"
 ACTS = ("count", "enable", "disable", "reset", "restart", "advr")
-VAR_START, VAR_GOAL = "c18_st", "c18_goal"
+VAR_START, VAR_GOAL, VAR_CTL = "c18_st", "c18_goal", "c18_ctl"
 
 
 def acts_of(cfg):
@@ -248,6 +248,12 @@ class RefBlock:
             self.start = op[1]
         elif name == "setgoal":
             self.goal = op[1]
+        elif name == "ctlnone":
+            pass                                  # add / subtract / jump whose value template gave None: ignored
+        elif name == "newgame":                   # the game ended: every player's stored state is gone with the players
+            if self.loaded:
+                self.do_unload()
+            self.store, self.cur = {}, 0
         elif not self.loaded:
             if name == "load":
                 self.do_load(self.cur)
@@ -365,6 +371,10 @@ def block_yaml(cfg):
         L.append("    persist_state: true")
     if cfg["timeout"]:
         L.append("    logic_block_timeout: %s" % ms(cfg["timeout"]))
+    if cfg.get("ev_hit"):
+        L.append("    events_when_hit: %s" % ", ".join(cfg["ev_hit"]))
+    if cfg.get("ev_done"):
+        L.append("    events_when_complete: %s" % ", ".join(cfg["ev_done"]))
     if k == "counter":
         pv = "current_player" if cfg["where"] == "game" else "machine"
         L += ["    starting_count: %s" % ("%s.%s" % (pv, VAR_START) if cfg.get("ph_start") else "%d" % cfg["start"]),
@@ -380,7 +390,7 @@ def block_yaml(cfg):
             L.append("    control_events:")
             for act, v in ctl:
                 L += ["      - action: %s" % {"add": "add", "sub": "subtract", "set": "jump"}[act],
-                      "        event: %s" % ctl_event(act, v), "        value: %d" % v]
+                      "        event: %s" % ctl_event(act, v), "        value: %s" % ctl_value(v)]
     else:
         L.append("    events:")
         for i in range(cfg["steps"]):
@@ -396,6 +406,8 @@ def vars_yaml(cfg):
         mv.append((VAR_START, cfg["start"]))
     if cfg.get("ph_goal"):
         mv.append((VAR_GOAL, cfg["goal"]))
+    if any(v == "mv" for _, v in cfg.get("controls", [])):
+        mv.append((VAR_CTL, 1))
     if mv:
         L.append("machine_vars:")
         for k, v in mv:
@@ -406,7 +418,29 @@ def vars_yaml(cfg):
 
 
 def ctl_event(act, v):
+    if isinstance(v, str):                                  # "kw": value template reads the event's kwarg `amount`;
+        return "%s_%s_%s" % (NAME, act, v)                  # "mv": reads the machine variable c18_ctl
     return "%s_%s_%s" % (NAME, act, ("m%d" % -v) if v < 0 else str(v))
+
+
+def ctl_value(v):
+    return {"kw": "amount", "mv": "machine.%s" % VAR_CTL}.get(v) if isinstance(v, str) else "%d" % v
+
+
+def py_int(raw, default=0):
+    """what a template_int evaluates to (`BaseTemplate.evaluate`): None / missing -> the default, else int() (truncation)"""
+    return default if raw is None or raw == "missing" else int(raw)
+
+
+def hit_events_of(cfg):
+    """the configured hit events (the default of a counter is the deprecated counter_<name>_hit plus logicblock_<name>_hit)"""
+    if cfg.get("ev_hit"):
+        return list(cfg["ev_hit"])
+    return (["counter_%s_hit" % NAME] if cfg["kind"] == "counter" else []) + ["logicblock_%s_hit" % NAME]
+
+
+def done_events_of(cfg):
+    return list(cfg["ev_done"]) if cfg.get("ev_done") else ["logicblock_%s_complete" % NAME]
 
 
 class _Hooks:
@@ -475,7 +509,7 @@ class RealBlock:
                 mode = "mode:\n  start_events: m1_start\n  stop_events: m1_stop\n  game_mode: false\n" + body
                 return VMachine("modes:\n  - m1\n" + vars_yaml(cfg), modes={"m1": mode})
             if where == "game":
-                main = ("modes:\n  - m1\ngame:\n  balls_per_game: 9\n  max_players: 4\nswitches:\n  s_start:\n"
+                main = ("modes:\n  - m1\ngame:\n  balls_per_game: 60\n  max_players: 4\nswitches:\n  s_start:\n"
                         "    number: 1\n    tags: start\n") + vars_yaml(cfg)
                 mode = "mode:\n  start_events: ball_started, m1_start\n  stop_events: m1_stop\n  priority: 200\n" + body
                 return VMachine(main, modes={"m1": mode}, game=True)
@@ -500,23 +534,51 @@ class RealBlock:
         self.sched = []
         self.choice = None
         self.next_player = None
-        for ev, tag in (("logicblock_%s_updated" % NAME, "U"), ("logicblock_%s_hit" % NAME, "H"),
-                        ("logicblock_%s_complete" % NAME, "C"), ("%s_timeout" % NAME, "T")):
+        self.hit_names, self.done_names = hit_events_of(cfg), done_events_of(cfg)
+        for ev, tag in (("logicblock_%s_updated" % NAME, "U"), ("%s_timeout" % NAME, "T")):
             m.events.add_handler(ev, self._make(tag))
+        for ev in dict.fromkeys(self.hit_names):
+            m.events.add_handler(ev, self._make_named("h", ev))
+        for ev in dict.fromkeys(self.done_names):
+            m.events.add_handler(ev, self._make_named("c", ev))
+        self.init_sched = []
         if where == "game":
             def _add_ball(**kwargs):
                 m.playfield.balls += 1
                 m.playfield.available_balls += 1
             m.playfield.add_ball = _add_ball
             m.ball_controller.num_balls_known = 3
-            for _ in range(cfg.get("players", 1)):
-                self.vm.hit_switch("s_start", 1)
-                self.vm.hit_switch("s_start", 0)
-                self.settle()
-            self.vm.advance(TICK)
+            self.start_game()
+            self.init_sched = self.sched
+
+    def start_game(self):
+        """start presses for all players, then one tick (the block exists from the first ball start on: the callbacks
+        that ran in that tick are reported in self.sched like those of an `adv 1`)"""
+        cfg, m = self.cfg, self.vm.machine
+        _Hooks.fired = []
+        for _ in range(cfg.get("players", 1)):
+            self.vm.hit_switch("s_start", 1)
+            self.vm.hit_switch("s_start", 0)
             self.settle()
-            if m.game is None or len(m.game.player_list) != cfg.get("players", 1) or not m.modes["m1"].active:
-                raise InfraError("game with %d players did not start" % cfg.get("players", 1))
+        for _ in range(40):
+            if m.game is not None and m.modes["m1"].active:
+                break
+            self.vm.run()
+        self.settle()
+        if m.game is None or not m.modes["m1"].active:
+            raise InfraError("game did not start before the first tick")
+        self.tick_logged()
+        if m.game is None or len(m.game.player_list) != cfg.get("players", 1) or not m.modes["m1"].active:
+            raise InfraError("game with %d players did not start" % cfg.get("players", 1))
+
+    def tick_logged(self, n=1):
+        t0 = self.vm.now()
+        self.vm.advance(n * TICK)
+        self.settle()
+        self.sched = []
+        for t, cb, choice in _Hooks.fired:
+            off = (t - t0) / TICK
+            self.sched.append((int(off) if off == int(off) else off, KIND_OF_CALLBACK.get(cb, "?" + cb), choice))
 
     def settle(self):
         for _ in range(8):
@@ -526,6 +588,39 @@ class RealBlock:
         def handler(**kwargs):
             self.log.append((tag, kwargs))
         return handler
+
+    def _make_named(self, tag, name):
+        def handler(**kwargs):
+            self.log.append((tag, kwargs, name))
+        return handler
+
+    def collapsed(self):
+        """the log with every run of configured hit (completion) events folded into one H (C) per complete round of the
+        configured list - each configured event once, in order, all with the same arguments; anything else is X"""
+        out, i, log = [], 0, self.log
+        while i < len(log):
+            tag = log[i][0]
+            if tag not in ("h", "c"):
+                out.append((tag, log[i][1]))
+                i += 1
+                continue
+            j = i
+            while j < len(log) and log[j][0] == tag:
+                j += 1
+            names = self.hit_names if tag == "h" else self.done_names
+            run, n, ok = log[i:j], len(names), True
+            if len(run) % n:
+                ok = False
+            for a in range(0, len(run) - n + 1, n):
+                chunk = run[a:a + n]
+                if [c[2] for c in chunk] != names or any(c[1] != chunk[0][1] for c in chunk):
+                    ok = False
+            if ok:
+                out += [("H" if tag == "h" else "C", run[a][1]) for a in range(0, len(run), n)]
+            else:
+                out.append(("X", {"%s=%s" % (tag, "+".join(c[2] for c in run)): 1}))
+            i = j
+        return out
 
     def fmt_value(self, v):
         if isinstance(v, list):
@@ -559,7 +654,7 @@ class RealBlock:
 
     def observe(self):
         d = self.dev
-        evs = "".join(" " + self.fmt_event(t, kw) for t, kw in self.log)
+        evs = "".join(" " + self.fmt_event(t, kw) for t, kw in self.collapsed())
         self.log = []
         if d._state is None:
             return "unloaded%s |%s" % (self.stored(), evs)
@@ -621,18 +716,49 @@ class RealBlock:
                     self.settle()
                 if vm.machine.modes["m1"].active:
                     raise InfraError("mode m1 did not stop")
+            elif name == "ctl":
+                act, form, raw = op[1], op[2], op[3]
+                if form == "mv":
+                    vm.machine.variables.set_machine_var(VAR_CTL, raw)
+                    vm.run()
+                    self.log = []
+                    vm.post(ctl_event(act, "mv"))
+                elif raw == "missing":
+                    vm.post(ctl_event(act, "kw"))
+                else:
+                    vm.post(ctl_event(act, "kw"), amount=raw)
+                vm.run()
+            elif name == "newgame":
+                m = vm.machine
+                m.game.end_game()
+                self.settle()
+                vm.advance(TICK)
+                self.settle()
+                if m.game is not None or m.modes["m1"].active:
+                    raise InfraError("game did not end")
+                m.playfield.balls = m.playfield.available_balls = 0       # the (fake) ball of the ended game is home
+                self.start_game()
             elif name == "drain":
                 m = vm.machine
+                if len(op) > 1:
+                    m.game.player.extra_balls += 1
                 for _ in range(m.game.balls_in_play):
                     r = vm.tc.post_relay_event_with_params("ball_drain", balls=1)
                     m.playfield.balls -= r["balls"]
                     m.playfield.available_balls -= r["balls"]
                 self.settle()
-                vm.advance(TICK)
+                for _ in range(40):            # the next ball starts without time passing, after a few loop iterations
+                    if m.game is not None and m.game.player is not None and m.modes["m1"].active:
+                        break
+                    vm.run()
                 self.settle()
                 if m.game is None or m.game.player is None or not m.modes["m1"].active:
-                    raise InfraError("no next ball after drain")
+                    raise InfraError("no next ball right after the drain")
                 self.next_player = m.game.player.index
+                _Hooks.fired = []
+                self.tick_logged()
+                if m.game is None or m.game.player is None or not m.modes["m1"].active:
+                    raise InfraError("no next ball after drain")
             else:
                 vm.post("%s_%s" % (NAME, name))
                 vm.run()
@@ -658,7 +784,7 @@ def gen_cfg(r, where=None, flavour=None):
     """flavour: None (mixed) | 'delay' (delayed control events) | 'tmpl' (template-valued start / goal) |
     'steps' (shared / duplicated step events, advance_random) | 'down' (counting down through zero)"""
     kind = r.choice(["counter", "counter", "counter", "accrual", "sequence"])
-    if flavour in ("tmpl", "down"):
+    if flavour in ("tmpl", "down", "ctl"):
         kind = "counter"
     if flavour == "steps":
         kind = r.choice(["accrual", "accrual", "sequence"])
@@ -694,6 +820,9 @@ def gen_cfg(r, where=None, flavour=None):
                                                        (cfg["goal"] or 0) - delta})]
         if r.random() < 0.3:
             cfg["controls"] = []
+        if flavour in ("tmpl", "ctl") or r.random() < 0.15:     # value templates: event kwarg `amount` / machine variable
+            forms = [[a, f] for a in ("add", "sub", "set") for f in ("kw", "mv") if r.random() < (0.8 if flavour == "ctl" else 0.4)]
+            cfg["controls"] = cfg["controls"] + (forms or [["add", "kw"]])
         if flavour == "tmpl" or (flavour is None and r.random() < 0.15):
             x = r.random()
             cfg["ph_start"] = x < 0.7
@@ -710,6 +839,12 @@ def gen_cfg(r, where=None, flavour=None):
                 cfg["shared"].append(sorted(r.sample(range(cfg["steps"]), r.choice([2, 3]))))
         if r.random() < (0.5 if flavour == "steps" else 0.15):
             cfg["dups"] = sorted({r.randrange(cfg["steps"]) for _ in range(2)})
+    if r.random() < (0.5 if flavour == "ctl" else 0.15):
+        cfg["ev_hit"] = r.choice([["my_hit"], ["my_hit", "my_hit2"], ["my_hit", "my_hit2", "my_hit"],
+                                  ["logicblock_%s_hit" % NAME], ["my_hit", "logicblock_%s_hit" % NAME]])
+    if r.random() < (0.5 if flavour == "ctl" else 0.15):
+        cfg["ev_done"] = r.choice([["my_done"], ["my_done", "my_done2"], ["my_done", "my_done"],
+                                   ["my_done", "logicblock_%s_complete" % NAME]])
     if where == "machine" and cfg["timeout"]:
         cfg["start_enabled"] = False
     if flavour == "delay" or (flavour is None and r.random() < 0.25):
@@ -722,10 +857,13 @@ def gen_cfg(r, where=None, flavour=None):
 
 
 def gen_game_cfg(r):
-    cfg = gen_cfg(r, "game", r.choice([None, "tmpl", "steps", None]))
-    cfg.pop("delays", None)
-    cfg["window"] = 0
-    cfg["timeout"] = 0
+    cfg = gen_cfg(r, "game", r.choice([None, "tmpl", "steps", None, "delay", None]))
+    if r.random() < 0.25:                     # the first C18 extension's sub-space: no timers at all
+        cfg.pop("delays", None)
+        cfg["window"] = 0
+        cfg["timeout"] = 0
+    elif r.random() < 0.5 and not cfg["timeout"]:
+        cfg["timeout"] = r.choice([1, 2, 3, 4, 8])
     cfg["persist"] = r.random() < 0.85
     cfg["players"] = r.choice([1, 2, 2, 3, 3])
     if r.random() < 0.5:                      # a completed block that stays completed on the next ball
@@ -766,22 +904,35 @@ def gen_ops(r, cfg, n):
         elif x < 0.45 and delays:
             ops.append(["dpost", r.choice(sorted(delays))])
         elif x < 0.7:
-            if where == "game":
-                ops.append(["drain"] if r.random() < 0.6 else ["hit", 0] if kind != "counter" else ["count"])
+            y = r.random()
+            if where == "game" and y < 0.4:
+                ops.append(["drain", "xb"] if r.random() < 0.25 else ["drain"])     # xb: the player has an extra ball
+            elif where == "game" and y < 0.47:
+                ops.append(["newgame"])
+            elif where == "game" and not (w or t or delays):
+                ops.append(["hit", 0] if kind != "counter" else ["count"])
             else:
                 ops.append(["adv", r.choice(edges) if r.random() < 0.8 else r.randint(1, 9)])
         elif x < 0.78 and kind == "counter" and (cfg.get("controls") or cfg.get("ph_start") or cfg.get("ph_goal")):
             y = r.random()
+            odd = lambda: r.choice([None, 2.5, -1.5, 0.5, None])     # a template_int gives 0 for None and int() of a float
             if cfg.get("ph_start") and y < 0.4:
-                ops.append(["setstart", r.choice([0, 1, 2, 5, -2, cfg["start"]])])
+                ops.append(["setstart", odd() if r.random() < 0.2 else r.choice([0, 1, 2, 5, -2, cfg["start"]])])
                 if r.random() < 0.5:
                     ops.append(["reset"])
             elif cfg.get("ph_goal") and y < 0.8:
                 base = cfg["start"]
-                ops.append(["setgoal", base + delta * r.choice([0, 1, 2, 3]) + r.choice([0, 0, 1, -1])])
+                ops.append(["setgoal", odd() if r.random() < 0.2 else
+                            base + delta * r.choice([0, 1, 2, 3]) + r.choice([0, 0, 1, -1])])
             elif cfg.get("controls"):
                 c = r.choice(cfg["controls"])
-                ops.append([c[0], c[1]])
+                if isinstance(c[1], str):
+                    raw = r.choice([1, 2, 3, -1, 0, -2, 2.5, -1.5, None] + (["missing"] if c[1] == "kw" else []))
+                    if c[0] == "set" and r.random() < 0.5 and cfg["goal"] is not None:
+                        raw = cfg["goal"]
+                    ops.append(["ctl", c[0], c[1], raw])
+                else:
+                    ops.append([c[0], c[1]])
         elif x < 0.84:
             # a machine-wide block that starts enabled has no enable event (only restart enables it again)
             ops.append(["enable"] if has_enable else ["restart"])
@@ -864,16 +1015,27 @@ def expand(cfg, op, env, sched, choice, next_player):
     if name == "setstart":
         if cfg["where"] == "game":
             env.pstart[env.cur] = op[1]
-        return [("setstart %d" % op[1], (op, None, None))]
+        return [("setstart %d" % py_int(op[1]), (["setstart", py_int(op[1])], None, None))]
     if name == "setgoal":
-        return [("setgoal %d" % op[1], (op, None, None))]
+        return [("setgoal %d" % py_int(op[1]), (["setgoal", py_int(op[1])], None, None))]
+    if name == "ctl":
+        eff = None if op[3] is None or op[3] == "missing" else int(op[3])     # evaluate_or_none + int()
+        if eff is None:
+            return [("ctlnone", (["ctlnone"], None, None))]
+        return [("%s %d" % (op[1], eff), ([op[1], eff], None, None))]
     if name == "drain":
-        p = next_player if next_player is not None else (env.cur + 1) % cfg.get("players", 1)
-        want_p = (env.cur + 1) % cfg.get("players", 1)          # the reference rotates by itself
+        extra = len(op) > 1                                       # the player has an extra ball: he shoots again
+        want_p = env.cur if extra else (env.cur + 1) % cfg.get("players", 1)   # the reference rotates by itself
+        p = next_player if next_player is not None else want_p
         env.cur = p
         return [("stopmode", (["stopmode"], None, None)),
-                ("setstart %d" % env.start_of(p), (["setstart", env.start_of(want_p)], None, None)),
-                ("startmode %d" % p, (["startmode", want_p], None, None))]
+                ("setstart %d" % py_int(env.start_of(p)), (["setstart", py_int(env.start_of(want_p))], None, None)),
+                ("startmode %d" % p, (["startmode", want_p], None, None))] + expand(cfg, ["adv", 1], env, sched, None, None)
+    if name == "newgame":
+        env.cur, env.pstart = 0, {}
+        return [("stopmode", (["stopmode"], None, None)), ("newgame", (["newgame"], None, None)),
+                ("setstart %d" % cfg["start"], (["setstart", cfg["start"]], None, None)),
+                ("startmode 0", (["startmode", 0], None, None))] + expand(cfg, ["adv", 1], env, sched, None, None)
     if name == "unload":
         return [("stopmode", (["stopmode"], None, None))]
     if name == "load":
@@ -913,6 +1075,8 @@ def classify(cfg, op, impl, want):
     sched_flags = [e for e in evw if e.startswith("!")]
     if sched_flags:
         return "%s:%s" % (k, sched_flags[0][1:].split(":")[0])
+    if any(e.startswith("X") for e in evi):
+        return "%s:configured-events-not-once-each" % k
     for tag, nm in (("C", "complete-events"), ("H", "hit-events"), ("S", "hit-events"), ("T", "timeout-events")):
         if [e for e in evi if e.startswith(tag)] != [e for e in evw if e.startswith(tag)]:
             return "%s:%s" % (k, nm)
@@ -943,21 +1107,29 @@ class Ledger:
 
     def step(self, op, impl):
         name = op[0]
+        if name == "ctl":
+            if op[3] is None or op[3] == "missing":
+                name, op = "ctlnone", ["ctlnone"]
+            else:
+                name, op = op[1], [op[1], int(op[3])]
         if name == "setstart":
-            self.start = op[1]
-            self.pstart[self.cur] = op[1]
+            self.start = py_int(op[1])
+            self.pstart[self.cur] = py_int(op[1])
         if impl.startswith("crash"):
             return None
         st, ev = impl.split(" |", 1)
         evs = ev.split()
-        if name in ("unload", "drain") and self.c.get("persist") and not getattr(self, "unloaded", False):
+        if name in ("unload", "drain", "newgame") and self.c.get("persist") and not getattr(self, "unloaded", False):
             self.saved[self.cur] = (self.base, self.hits)
         if name == "unload":
             self.unloaded = True
         if name == "drain":
-            self.cur = (self.cur + 1) % self.c.get("players", 1)
+            if len(op) == 1:
+                self.cur = (self.cur + 1) % self.c.get("players", 1)
             self.start = self.pstart.get(self.cur, self.c["start"])
-        if name in ("load", "drain"):
+        if name == "newgame":
+            self.cur, self.saved, self.pstart, self.start = 0, {}, {}, self.c["start"]
+        if name in ("load", "drain", "newgame"):
             self.unloaded = False
             if self.c.get("persist") and self.cur in self.saved:
                 self.base, self.hits = self.saved[self.cur]
@@ -976,7 +1148,7 @@ class Ledger:
         # (visible as an `updated` event showing the start value right after a non-hit) - events are scanned in order
         if name in ("reset", "restart") or (name == "load" and not self.c.get("persist")):
             self.base, self.hits = self.start, 0
-        elif name == "adv" or nh or "C" in evs:
+        elif name in ("adv", "drain", "newgame") or nh or "C" in evs:
             self.scan(evs)
         return self.base + self.delta * self.hits
 
@@ -1015,6 +1187,11 @@ def execute(cfg, ops, model=None, stop_at_first=True):
             ref.op(["startmode", 0])
             if model is not None:
                 model.ask("startmode 0")
+            for line, a in expand(cfg, ["adv", 1], env, real.init_sched, None, None):   # the tick after the start
+                if a is not None:
+                    ref.op(*a)
+                if model is not None:
+                    model.ask(line)
         first = real.observe()
         want0 = ref.line()
         if first.split(" |")[0] != want0.split(" |")[0]:
@@ -1044,10 +1221,22 @@ def execute(cfg, ops, model=None, stop_at_first=True):
                 insts = [off for off, _, _ in real.sched]
                 if len(set(insts)) < len(insts):
                     flags.add("same-instant-callbacks")
-            if op[0] in ("unload", "drain") and cfg.get("persist"):
+            if op[0] in ("unload", "drain", "newgame") and cfg.get("persist"):
                 flags.add("state-stored")
+            if op[0] == "newgame":
+                flags.add("second-game")
+            if op[0] == "drain" and len(op) > 1:
+                flags.add("extra-ball")
+            if op[0] == "ctl":
+                flags.add("ctl-none" if op[3] in (None, "missing") else "ctl-float" if isinstance(op[3], float) else "ctl-int")
             if op[0] in ("load", "drain") and cfg.get("persist") and " U:" in want and want.count(" U:") == 1:
                 flags.add("state-restored")
+            if "state-restored" in flags and op[0] in ("load", "drain") and cfg["timeout"] and " e=1 c=0" in impl \
+                    and want.count(" U:") == 1:
+                flags.add("obs:restored_enabled_block_timeout_not_rearmed")
+            for e in impl.split(" |", 1)[1].split() if " |" in impl else []:
+                if e.startswith("H:") and e.count(":") == 3 and e.split(":")[2].startswith("-"):
+                    flags.add("obs:hits_kwarg_negative")
             if impl != want and failure is None:
                 failure = (classify(cfg, op, impl, want), i, impl, want)
             if led is not None and failure is None:
@@ -1069,10 +1258,10 @@ def run_case(ctx, model, cfg, ops, sample=True):
     for op in ops:
         ctx.count("op_" + op[0])
     for f in flags:
-        ctx.count("branch_" + f)
+        ctx.count("observed_outside_property_" + f[4:] if f.startswith("obs:") else "branch_" + f)
     ctx.count("kind_" + cfg["kind"])
     ctx.count("where_" + cfg["where"])
-    for key in ("delays", "ph_start", "ph_goal", "shared", "dups", "persist"):
+    for key in ("delays", "ph_start", "ph_goal", "shared", "dups", "persist", "ev_hit", "ev_done"):
         if cfg.get(key):
             ctx.count("cfg_" + key)
     for i, impl, mod in comps:
@@ -1264,7 +1453,7 @@ def run(ctx):
             cfg = gen_cfg(r)
             ops = gen_ops(r, cfg, r.randint(6, 28))
             run_case(ctx, model, cfg, ops)
-        for flavour, nq, nt in (("delay", 220, 1600), ("tmpl", 90, 900), ("steps", 90, 900), ("down", 50, 500)):
+        for flavour, nq, nt in (("delay", 220, 1600), ("tmpl", 90, 900), ("ctl", 70, 700), ("steps", 90, 900), ("down", 50, 500)):
             for i in range(ctx.n(nq, nt)):
                 r = ctx.rng(flavour, i)
                 cfg = gen_cfg(r, None, flavour)
